@@ -170,6 +170,34 @@ func runC10(c *Ctx) {
 			}, isConstInt(-1), token.EQL, true)(i); m {
 				return m, arm
 			}
+			// idiom 1b: strings.Contains(scriptStr[headerIdx+k:], marker) == false
+			{
+				x, neg := ssau.StripNot(i.Cond)
+				if cl := staticCalleeNamed(ssau.Unwrap(x), "strings.Contains"); cl != nil && isMarkerStr(cl.Call.Args[1]) {
+					if sl, ok := ssau.Unwrap(cl.Call.Args[0]).(*ssa.Slice); ok && sl.High == nil && sl.Low != nil && isScriptStr(sl.X) {
+						if add, ok := sl.Low.(*ssa.BinOp); ok && add.Op == token.ADD {
+							var k ssa.Value
+							switch {
+							case isHeaderIdx(add.X):
+								k = add.Y
+							case isHeaderIdx(add.Y):
+								k = add.X
+							}
+							okK := false
+							if kc, ok := k.(*ssa.Const); ok {
+								if n, ok := constInt(kc); ok && n >= 1 && n <= markerLen {
+									okK = true
+								}
+							} else if k != nil && isLenOf(isMarkerStr)(k) {
+								okK = true
+							}
+							if okK {
+								return true, neg
+							}
+						}
+					}
+				}
+			}
 			// idiom 2: strings.Count(scriptStr, marker) == 1
 			if m, arm := condCmp(func(v ssa.Value) bool {
 				cl := staticCalleeNamed(ssau.Unwrap(v), "strings.Count")
@@ -387,9 +415,10 @@ func runC10(c *Ctx) {
 			okHash := false
 			var hashRoot ssa.Value
 			ssau.DependsOn(a[1], func(y ssa.Value) bool {
-				if cl, ok := y.(*ssa.Call); ok && methodCallNamed(cl, "Hash") && len(cl.Call.Args) > 0 {
+				if cl, ok := y.(*ssa.Call); ok && methodCallNamed(cl, "Hash") && len(cl.Call.Args) > 0 && cl.Parent() == caller {
 					hashRoot = ssau.AddrRoot(cl.Call.Args[0])
 					okHash = true
+					return true
 				}
 				return false
 			})
